@@ -127,6 +127,13 @@ func (bl *blockLabels) Replace(newLabels []string) {
 
 	for _, label := range newLabels {
 		labelToks := TokensForValue(cty.StringVal(label))
+		// Re-scan the generated label so that it is split into tokens in the
+		// same way as it will be when the resulting file is parsed again:
+		// the scanner splits quoted strings around "$" and "%" sequences,
+		// and Current relies on that split to undo the "$${" escaping.
+		if relexed := lexConfig(labelToks.Bytes()); len(relexed) > 1 {
+			labelToks = relexed[:len(relexed)-1] // without the EOF token
+		}
 		// Force a new label to use the quoted form, which is the idiomatic
 		// form. The unquoted form is supported in HCL 2 only for compatibility
 		// with historical use in HCL 1.
